@@ -7,6 +7,7 @@ import (
 	"strings"
 	"sync"
 	"sync/atomic"
+	"time"
 
 	circularQueue "github.com/goblimey/go-ntrip/apps/proxy/circular_queue"
 	rtcm "github.com/goblimey/go-ntrip/rtcm/handler"
@@ -29,7 +30,9 @@ func untag(m rtcm.Message) (uint32, uint32) {
 }
 
 // case: queue <capacity> <ops>      ops: a = add the next message (numbered 1, 2, ...), s = snapshot,
-//                                         A<n> = add n messages in a row (long runs)
+//
+//	A<n> = add n messages in a row (long runs)
+//
 // obs:  one "s:<numbers joined by .>" per snapshot and a final "max=<largest number of stored items seen>"
 func runQueue(f []string, out *bufio.Writer) {
 	capacity := atoi(f[1])
@@ -78,6 +81,7 @@ func runQueue(f []string, out *bufio.Writer) {
 //   - per adder the sequence numbers are ascending and contiguous (a contiguous run of the addition order);
 //   - with a single adder: the run ends at j with started-before-return >= j >= completed-before-call and
 //     has length min(capacity, j)  (consistent with the real-time order of the calls).
+//
 // obs: ok snapshots=<n> | bad <what>
 func runQueueConc(f []string, out *bufio.Writer) {
 	capacity, adders, readers, perAdder, perReader := atoi(f[1]), atoi(f[2]), atoi(f[3]), atoi(f[4]), atoi(f[5])
@@ -146,7 +150,15 @@ func runQueueConc(f []string, out *bufio.Writer) {
 			}
 		}()
 	}
-	wg.Wait()
+	finished := make(chan struct{})
+	go func() { wg.Wait(); close(finished) }()
+	select {
+	case <-finished:
+	case <-time.After(60 * time.Second):
+		// adders and readers stopped making progress: a deadlock in the queue's locking
+		fmt.Fprintln(out, "bad deadlock:_adders_and_snapshot_readers_stopped_making_progress_for_60_s")
+		return
+	}
 	if bad != "" {
 		fmt.Fprintln(out, "bad "+strings.ReplaceAll(bad, " ", "_"))
 		return
